@@ -35,6 +35,7 @@ Snippet(k, b) ==   \* b = first fresh id
     [] k = 2 -> Node("env", <<"w">>, "", <<>>, <<>>, << Tx(<<"u">>, b+1) >>, b)                                                       \* \begin{w}u\end{w}
     [] k = 3 -> Node("group", <<>>, "{", <<>>, <<>>, << Tx(<<"g">>, b+1) >>, b)                                                         \* {g}
     [] k = 4 -> Node("math", <<>>, "$", <<>>, <<>>, << Tx(<<"m">>, b+1) >>, b)                                                          \* $m$
+    [] k = 7 -> Node("cmd", <<"n">>, "", <<>>, << Node("group", <<>>, "{", <<>>, <<>>, << Tx(<<"q">>, b+2) >>, b+1) >>, <<>>, b)        \* \n{q} again, but the real node is copied out of an ARGUMENT of another document
     [] k = 5 -> Node("cmd", <<"a">>, "", <<>>, << Node("group", <<>>, "{", <<>>, <<>>, << Tx(<<"x">>, b+2) >>, b+1) >>, <<>>, b)        \* \a{x}  (a twin of \a{x} in the start documents)
     [] OTHER -> Node("cmd", <<"n">>, "", <<>>, << Node("group", <<>>, "{", <<>>, <<>>,
                        << Node("cmd", <<"q">>, "", <<>>, << Node("group", <<>>, "{", <<>>, <<>>, << Tx(<<"1">>, b+4) >>, b+3) >>, <<>>, b+2) >>, b+1) >>, <<>>, b)   \* \n{\q{1}}
@@ -102,7 +103,8 @@ WithBody(pid, b) == IF pid = 0-1 THEN b ELSE Update(pid, [GetSeq(doc, pid) EXCEP
 Renamable(x) == x.k \in {"cmd", "env"} /\ (RenameItems \/ x.name # ItemWord)
 GroupArgs(x) == \A j \in 1..Len(x.args) : x.args[j].k = "group"
 StringCmd(x) == x.k = "cmd" /\ Len(x.args) = 1 /\ x.args[1].k = "group"
-StringEnv(x) == x.k \in {"env", "math", "group"} /\ x.args = <<>> /\ Len(x.body) = 1 /\ x.body[1].k = "text" /\ ~IsWsText(x.body[1])
+(* text-only environment: its (whitespace-filtered) contents are exactly one text; whitespace-only siblings are allowed and are dropped by the assignment *)
+StringEnv(x) == x.k \in {"env", "math", "group"} /\ x.args = <<>> /\ Len(Contents(x)) = 1 /\ Contents(x)[1].k = "text"
 HasArgs(x) == x.k \in {"cmd", "env"} /\ GroupArgs(x)
 FreshGroup(kind, s, id) == Node("group", <<>>, kind, <<>>, <<>>, << Tx(s, id+1) >>, id)
 
